@@ -177,6 +177,9 @@ pub fn run(tier: Tier, seed: u64) -> i32 {
 }
 
 pub fn replay(engine: &str, case: serde_json::Value) -> Option<CaseReport> {
+    if engine == "world" {
+        return crate::props::worldprops::replay_world("C12", case);
+    }
     if engine == "pure-fee" {
         let c: FeeCase = serde_json::from_value(case).ok()?;
         return Some(check_fee(&c));
